@@ -151,6 +151,7 @@ func checkC06(c *Ctx) {
 	c.MinCount("R6.6", 3)
 	ruleDispatch(c, dv, "R6.8", false, true) // every axis position reaches the transfer function
 	ruleFlipAfterDeadzone(c, dv, "R6.7")
+	c.importRules(checkC07, []string{"R7.1"}, "R6.9") // every position that passes the gates is transmitted: each controller path sends the active controller (no second, value-based suppression)
 	c.MinCount("R6.1", 2)
 	c.MinCount("R6.2", 2)
 	c.MinCount("R6.3", 6)
@@ -309,10 +310,10 @@ func ruleCCScaling(c *Ctx, dv *dev, paths []*Path) {
 	pos := c.P.Pos(fn.Pos())
 	ccType, _ := c.P.constString(pkgConfig, "AnalogCC")
 	forms := map[string][3]float64{ // value at v = a, b, c
-		"|v| (signed, bidirectional)":          {127, 0, 127},  // v = -1, 0, 1
-		"(v+1)/2 (signed, unidirectional)":     {0, 63, 127},   // v = -1, 0, 1
-		"|2v-1| (unsigned, bidirectional)":     {127, 0, 127},  // v = 0, .5, 1
-		"v (unsigned, unidirectional)":         {0, 63, 127},   // v = 0, .5, 1
+		"|v| (signed, bidirectional)":      {127, 0, 127}, // v = -1, 0, 1
+		"(v+1)/2 (signed, unidirectional)": {0, 63, 127},  // v = -1, 0, 1
+		"|2v-1| (unsigned, bidirectional)": {127, 0, 127}, // v = 0, .5, 1
+		"v (unsigned, unidirectional)":     {0, 63, 127},  // v = 0, .5, 1
 	}
 	seen := map[string]bool{}
 	bad := ""
@@ -681,7 +682,7 @@ func ruleFlipAfterDeadzone(c *Ctx, dv *dev, rule string) {
 		vw := NewFnView(c.P, host)
 		mentionsDeadzone := func(v ssa.Value) bool {
 			s := vw.Term(v).String()
-			return strings.Contains(s, "Deadzones[") || strings.Contains(s, "DefaultDeadzone[") || strings.Contains(s, "call:") && strings.Contains(s, "deadzone")
+			return strings.Contains(s, "Deadzones[") || strings.Contains(s, "DefaultDeadzone[") || strings.Contains(s, "call:") && strings.Contains(strings.ToLower(s), "deadzone")
 		}
 		dependsOnFlip := func(v ssa.Value) bool {
 			seen := map[ssa.Value]bool{}
